@@ -1737,3 +1737,10 @@ package yqlib
 //@   overlay
 //@   requires d != nil && validCtx(context) && expressionNode != nil
 //@   at GetMatchingNodes#2: assert @the-index-expression-is-evaluated-read-only {C02,C08} arg1.DontAutoCreate && arg1.MatchingNodes == context.MatchingNodes && arg2 == expressionNode.RHS
+
+// candidiate_node_json.go: decoding JSON text into a node never asserts the type of a token it has not tested (C11)
+//@ func (*CandidateNode).UnmarshalJSON
+//@   props C11
+//@   noframe
+//@   nopre
+//@   requires o != nil && len(data) > 0
